@@ -246,13 +246,35 @@ def generate(ex: Executor, c: FnContract, mod, fnode):
                     s2.assume(cond)
                 nxt.append((s2, dict(amap, **{name: v})))
         alts = nxt
+    # closure variables of a nested function under contract live in an enclosing frame
+    cl_names = [n for (n, _m) in c.closure]
+    for (name, maker) in c.closure:
+        nxt = []
+        for (st, amap) in alts:
+            for (cond, v) in maker.make(ex, st, name):
+                s2 = st.fork()
+                if cond is not None:
+                    s2.assume(cond)
+                nxt.append((s2, dict(amap, **{name: v})))
+        alts = nxt
     covers = []
     first = True
+    n_raise_total = 0
     for (st, amap) in alts:
-        fr = Frame(dict(amap), None, fnode)
-        st.frames = [fr]
+        if c.closure:
+            from .values import VFunc
+            outer = Frame({n: amap[n] for n in cl_names}, None, None)
+            outer.env[fnode.name] = VFunc("closure", fnode, 0)      # the function sees itself (recursion)
+            fr = Frame({k: v for k, v in amap.items() if k not in cl_names}, 0, fnode)
+            st.frames = [outer, fr]
+        else:
+            fr = Frame(dict(amap), None, fnode)
+            st.frames = [fr]
         entry = st.fork()
         ctx0 = CallCtx(ex, amap, entry, st)
+        if c.closure:
+            ctx0.cl_frame = 0
+        ex.entry_ctx = ctx0
         if c.requires is not None:
             st.assume(ex._b(c.requires(ctx0)))
         if c.hyps is not None:
@@ -286,6 +308,8 @@ def generate(ex: Executor, c: FnContract, mod, fnode):
                 if c.generator:
                     val = VTuple(o.st.yielded)
                 cx = CallCtx(ex, amap, entry, o.st, result=val)
+                if c.closure:
+                    cx.cl_frame = 0
                 if c.returns is not None:
                     exp = c.returns(cx)
                     if isinstance(exp, list) and exp and isinstance(exp[0], tuple):
@@ -325,6 +349,8 @@ def generate(ex: Executor, c: FnContract, mod, fnode):
                 n_raise += 1
                 exc = o.val
                 cx = CallCtx(ex, amap, entry, o.st, exc=exc)
+                if c.closure:
+                    cx.cl_frame = 0
                 alts_ok = []
                 for r in c.raises:
                     tm = ex.uni.subclass_term(exc.tidx, r.cls) if r.sub else (exc.tidx == ex.uni.index[r.cls])
@@ -344,7 +370,11 @@ def generate(ex: Executor, c: FnContract, mod, fnode):
             for (label, _e) in c.exc_ensures:
                 ex.add_vc("exc-ensures", label, [], z3.BoolVal(True), note="no escaping exceptional path", loc=ex.loc(fnode))
         covers.append({"paths_return": n_ret, "paths_raise": n_raise})
+        n_raise_total += n_raise
         first = False
+    if c.total and n_raise_total == 0:
+        # totality claimed and no exceptional path exists: record the (trivially discharged) obligation
+        ex.add_vc("raises", "", [], z3.BoolVal(True), loc=ex.loc(fnode))
     if c.returns is not None and "returns" not in "".join(ex.obls):
         pass
     return ex.obls, covers
